@@ -170,13 +170,11 @@ class MediaQuery(cssutils.util._NewBase):  # cssutils.util.Base):
             del cssutils.prodparser.savedTokens[:]
         self._wellformed = ok
         if ok:
-            try:
-                media_type = store['media_type']
-            except KeyError:
-                pass
+            if 'media_type' in store and 'not simple' not in store:
+                self.mediaType = store['media_type'].value
             else:
-                if 'not simple' not in store:
-                    self.mediaType = media_type.value
+                # not a simple media type (anymore)
+                self._mediaType = ''
 
             # TODO: filter doubles!
             self._setSeq(seq)
